@@ -19,6 +19,7 @@ BINOPS = {ast.BitAnd: ("__and__", "__rand__"), ast.BitOr: ("__or__", "__ror__"),
           ast.Sub: ("__sub__", "__rsub__"), ast.Mult: ("__mul__", "__rmul__")}
 
 
+
 def B(x):
     if z3.is_expr(x):
         return x
@@ -349,6 +350,10 @@ class ExprMixin:
         if isinstance(a, AbsObj) or isinstance(b, AbsObj):
             th = a.theory if isinstance(a, AbsObj) else b.theory
             return th.binop(self, name, a, b)
+        if isinstance(a, Obj) and a.cls.name == "OrderedSet" and self.theory is not None and hasattr(self.theory, "oset_binop"):
+            r = self.theory.oset_binop(self, name, a, b)
+            if r is not NOTIMPL:
+                return r
         return self.dispatch_binop(name, rname, a, b)
 
     def dispatch_binop(self, name, rname, a, b):
@@ -769,6 +774,8 @@ class ExprMixin:
             if isinstance(base, str):
                 raise OutsideSubset("symbolic index into concrete str")
             return self.py_index(list(base), idx)
+        if type(base).__name__ == "EnvMapping":
+            return self.theory.index_env(self, idx)
         if isinstance(base, dict):
             if isinstance(idx, (str, int, tuple)):
                 if idx not in base:
